@@ -325,8 +325,87 @@ def matrix(chk, ids):
             meta["matrix"] = out[i]
             json.dump(meta, open(os.path.join(base, i, "meta.json"), "w"), indent=1)
             print("%-8s flagged by checks: %s" % (i, " ".join(flagged) or "-"), flush=True)
-        json.dump(out, open(os.path.join(base, "MATRIX.json"), "w"), indent=1, sort_keys=True)
+            mp = os.path.join(base, "MATRIX.json")
+            old = json.load(open(mp)) if os.path.exists(mp) else {}
+            old.update(out)
+            json.dump(old, open(mp, "w"), indent=1, sort_keys=True)
         return 0
+    finally:
+        subprocess.run(["git", "-C", "/repo", "worktree", "remove", "--force", os.path.join(tmp, "wt")], stdout=subprocess.DEVNULL, stderr=subprocess.DEVNULL)
+        subprocess.run(["git", "-C", "/repo", "worktree", "prune"])
+        shutil.rmtree(tmp, ignore_errors=True)
+        shutil.rmtree(w, ignore_errors=True)
+
+
+def mutants(chk, ids):
+    """Author's sensitivity catalogue (selftest/mutants/*.patch; each compiles and passes the 59 tests - checked when
+    the catalogue was generated).  Each is applied in a scratch worktree (never /repo), a private harness is built
+    against it, the traces of the plan of its property are produced and validated, and the property must fail on one
+    of them - except the entries marked "control" (behaviour-preserving edits), which no property may flag."""
+    import subprocess
+    import tempfile
+    import concurrent.futures as cf
+    cat = json.load(open(os.path.join(chk.ROOT, "selftest", "mutants", "catalogue.json")))
+    if ids:
+        cat = [m for m in cat if m["id"] in ids]
+    tmp = tempfile.mkdtemp(prefix="vt-mutants-")
+    w = chk.mkwork("selftest-mutants")
+    bad = []
+    try:
+        chk.write_trace_cfg(w, chk.open_ids())
+        h2 = os.path.join(tmp, "harness")
+        shutil.copytree(os.path.join(chk.ROOT, "harness"), h2, ignore=shutil.ignore_patterns("target"))
+        wt = os.path.join(tmp, "wt")
+        toml = open(os.path.join(h2, "Cargo.toml")).read().replace('path = "/repo"', 'path = "%s"' % wt)
+        open(os.path.join(h2, "Cargo.toml"), "w").write(toml)
+        hb = os.path.join(h2, "target", "release", "mctp-verif-harness")
+        gen_cache = {}
+        for m in cat:
+            prop = m["property"]
+            pl = chk.PLAN[prop]
+            subprocess.run(["git", "-C", "/repo", "worktree", "remove", "--force", wt], stdout=subprocess.DEVNULL, stderr=subprocess.DEVNULL)
+            subprocess.run(["git", "-C", "/repo", "worktree", "add", "--detach", wt, "HEAD"], stdout=subprocess.DEVNULL, stderr=subprocess.DEVNULL, check=True)
+            subprocess.run(["git", "-C", wt, "apply", os.path.join(chk.ROOT, "selftest", "mutants", m["id"] + ".patch")], check=True)
+            r = subprocess.run(["cargo", "build", "--release", "--offline"], cwd=h2, stdout=subprocess.PIPE, stderr=subprocess.STDOUT, text=True)
+            if r.returncode != 0:
+                print("%s: does not build" % m["id"])
+                bad.append(m["id"])
+                continue
+            traces = []
+            env = dict(os.environ, VERIF_ALPHABET=os.path.join(w, "alphabet.json"))
+            for g in pl.get("gen_quick", pl.get("gen", [])):
+                if g not in gen_cache:
+                    scn = chk.gen_scenarios(w, g, "quick", 1)[0]
+                    os.rename(scn, scn + ".keep")
+                    gen_cache[g] = scn + ".keep"
+                tr = os.path.join(w, "%s-gen-%s.ndjson" % (m["id"], g))
+                subprocess.run([hb, "run", gen_cache[g], tr], check=True, stdout=subprocess.DEVNULL, stderr=subprocess.DEVNULL)
+                traces.append(("gen:" + g, tr))
+            for f in pl.get("families", []):
+                f = f if isinstance(f, str) else f[0]
+                tr = os.path.join(w, "%s-%s.ndjson" % (m["id"], f))
+                subprocess.run([hb, "drive", f, "quick", "1", tr], env=env, check=True, stdout=subprocess.DEVNULL, stderr=subprocess.DEVNULL)
+                traces.append((f, tr))
+            parts = []
+            for tag, tr in traces:
+                parts.extend(chk.split_trace(tr, tag))
+            failing = set()
+            with cf.ThreadPoolExecutor(max_workers=10) as ex:
+                for s in ex.map(lambda t: chk.validate(w, t[1]), parts):
+                    failing |= {p for p in chk.PROPS if s["first"][p]}
+            for _, tr, _ in parts:
+                if os.path.exists(tr):
+                    os.remove(tr)
+            if m.get("control"):
+                ok = not failing
+                print("%-18s control: flagged by %s %s" % (m["id"], sorted(failing) or "-", "ok" if ok else "FALSE ALARM"), flush=True)
+            else:
+                ok = prop in failing
+                print("%-18s %s: %s fails %s  (all failing: %s)" % (m["id"], m["what"], prop, "ok" if ok else "NOT DETECTED", sorted(failing)), flush=True)
+            if not ok:
+                bad.append(m["id"])
+        print("mutants: %d of %d not as expected: %s" % (len(bad), len(cat), bad))
+        return 0 if not bad else 1
     finally:
         subprocess.run(["git", "-C", "/repo", "worktree", "remove", "--force", os.path.join(tmp, "wt")], stdout=subprocess.DEVNULL, stderr=subprocess.DEVNULL)
         subprocess.run(["git", "-C", "/repo", "worktree", "prune"])
